@@ -111,7 +111,9 @@ def run_case(desc):
 
     unl = c.unl
     A = attempt("none", lambda: q(c.X, c.y, None))
-    B = attempt("idx", lambda: q(c.X, c.y, unl))
+    # the indices of the unlabelled samples, in every second case in an arbitrary order (an index SET is addressed)
+    unl_given = unl[gen.rng_for("c08order", desc["seed"]).permutation(len(unl))] if (desc["seed"] >> 7) % 2 else unl
+    B = attempt("idx", lambda: q(c.X, c.y, unl_given))
     Cf = attempt("feat", lambda: q(c.X, c.y, c.X[unl])) if e.feat else None
     if A is not None and B is not None:
         contracts.count("C08.representation-equivalence")
